@@ -38,7 +38,7 @@ func unhex(s string) []byte {
 func hexInt(s string) *big.Int { return new(big.Int).SetBytes(unhex(s)) }
 
 type vecFile struct {
-	EcdsaVerify   [][3]string `json:"ecdsa_verify"`
+	EcdsaVerify   [][3]string                             `json:"ecdsa_verify"`
 	EcdsaVerifyRS []struct{ Msg, R, S, X, Y, Pub string } `json:"ecdsa_verify_rs"`
 	Recover       []struct {
 		R, S, Msg string
@@ -52,8 +52,8 @@ type vecFile struct {
 		RecidLow           int    `json:"recid_low"`
 		RecidRaw           int    `json:"recid_raw"`
 	} `json:"sign_nonce"`
-	Ecmult []struct{ Px, Py, Na, Ng, Jx, Jy, Jz string } `json:"ecmult"`
-	Seckeys []string                                       `json:"seckeys_valid_pub"`
+	Ecmult  []struct{ Px, Py, Na, Ng, Jx, Jy, Jz string } `json:"ecmult"`
+	Seckeys []string                                      `json:"seckeys_valid_pub"`
 	Drbg    []struct {
 		Key string
 		Out []string
